@@ -129,6 +129,22 @@ def model_compare(rep, spec, path, H, limits):
             rep.agree()
         else:
             rep.tie("header model disagrees with the metadata the files state", case, {"status": m.get("status"), "why": m.get("why")})
+    # the min / max tables per field, as the Lean model of the maxmins branch reads them, against the oracle's rows
+    mm = leanio.driver([{"op": "maxmins", "n": len(H["levels"][l]["idx"]), "names": list(names),
+                         "hex": open(os.path.join(path, H["levels"][l]["cdir"], "Cell_H"), "rb").read().hex()} for l in range(nl)])
+    for l, m in enumerate(mm):
+        case = {"spec": spec, "mode": {"level": l, "maxmins": True}, "model": "maxmins"}
+        lev = H["levels"][l]
+        ok = m.get("status") == "ok"
+        if ok:
+            for which in ("mins", "maxs"):
+                tab = m[which]
+                ok = ok and [t[0] for t in tab] == list(names) and all(
+                    feq([float(x) for x in t[1]], [r[names[t[0]]] for r in lev[which]]) for t in tab)
+        if ok:
+            rep.agree(); rep.count("maxmins-model-agrees")
+        else:
+            rep.tie("the min / max tables per field differ from the Lean model of the maxmins branch", case, {"status": m.get("status")})
     for l, m in enumerate(rs[len(limits):]):
         case = {"spec": spec, "mode": {"level": l}, "model": "cellh"}
         lev = H["levels"][l]
@@ -141,7 +157,7 @@ def model_compare(rep, spec, path, H, limits):
 
 
 def run_spec(ctx, rep, spec, model, only=None, previous=None):
-    path = ctx.newdir("c02_")
+    path = ctx.newdir("c02_") if spec.get("path_form") != "long" else ctx.long_dir("c02_")
     if previous is not None:
         # another plotfile (same number of fields) lived at this very path and was opened in this process before
         from amr_kitchen import PlotfileCooker
@@ -156,6 +172,9 @@ def run_spec(ctx, rep, spec, model, only=None, previous=None):
         rep.count("path-reused-after-rewrite")
     plotgen.materialize(spec, path)
     H = oracle.parse(path, maxmins=True, data=False)
+    if spec.get("path_form") == "symlink":
+        path = ctx.via_symlink(path); rep.count("path-through-symlink-and-dotdot")
+    if spec.get("path_form") == "long": rep.count("path-longer-than-160-characters")
     finest = H["finest"]
     feats = plotgen.describe(spec)
     if len(set(spec["fields"])) < len(spec["fields"]): feats.append("repeats")
@@ -188,6 +207,8 @@ def run(ctx, rep, model=True):
         spec = plotgen.random_spec(ctx.rng, nlev=[1, 2, 3, 4][i % 4] if i % 8 else 4, data=["smallint", "bits", "smallint"][i % 3], B=2,
                                    repeats=(i % 3 == 2), exact=(i % 5 != 4))
         # lines of the global header that are constant in plotfiles the package writes: coordinate system, per-level steps
+        if i % 7 == 3: spec["path_form"] = "symlink"
+        if i % 7 == 5: spec["path_form"] = "long"
         if i % 4 == 1:
             spec["coord_sys"] = [1, 2][(i // 4) % 2]; rep.count(f"coordinate-system:{spec['coord_sys']}")
         if i % 3 == 1 and len(spec["levels"]) >= 2:
